@@ -8,6 +8,7 @@ import Ktm.DriverRandom
 import Ktm.DriverSync
 import Ktm.DriverSpace
 import Ktm.DriverCodec
+import Ktm.TunerFile
 /-! Dispatcher of the line protocol: every line carries a `suite` field; `op = init` (re)starts the
     suite's state. -/
 open Lean
@@ -46,6 +47,17 @@ def handleLine (st : DSt) (line : String) : DSt × String :=
     | "programs" => (st, DriverSpace.handle j)
     | "transforms" => (st, DriverTF.handle j)
     | "metrics" => (st, DriverMetrics.handle j)
+    | "tunerfile" =>
+      -- the write sequence of a single tuner's search of n trials and what a restart after the first k writes knows
+      let n := (j.getObjValAs? Nat "n").toOption.getD 0
+      let wstr : TunerFile.W → String := fun w => match w with | .oracle e => s!"o{e}" | .tuner => "t"
+      match (j.getObjValAs? String "op").toOption.getD "" with
+      | "writes" => (st, String.intercalate "," ((TunerFile.searchWrites n).map wstr))
+      | "restart" =>
+        let k := (j.getObjValAs? Nat "k").toOption.getD 0
+        let d := TunerFile.disk ((TunerFile.searchWrites n).take k)
+        (st, s!"ended={d.1} tunerfile={d.2} knows={TunerFile.restartKnows d}")
+      | _ => (st, "bad-op")
     | s => (st, s!"bad-suite {s}")
 
 end DriverAll
